@@ -503,6 +503,82 @@ def propagate_subscript_aliases(fnode):
     return total
 
 
+def unroll_literal_loops(fnode):
+    """N19: `for T in (E1, E2, ...): BODY` over a literal display of at most 6 elements whose elements are built from names,
+    constants, attributes and displays of those (no calls, no subscripts), with a body that has no break / continue / return
+    inside this loop, does not store to the target names nor to any name the elements mention: BODY with T := E1, then BODY
+    with T := E2, ...  (The display is evaluated before the first cycle; with pure elements over names the body does not
+    change, evaluating each element at its cycle gives the same values.)"""
+    total = 0
+
+    def pure(e):
+        if isinstance(e, (ast.Name, ast.Constant)):
+            return True
+        if isinstance(e, ast.Attribute):
+            return pure(e.value)
+        if isinstance(e, (ast.Tuple, ast.List)):
+            return all(pure(x) for x in e.elts)
+        if isinstance(e, ast.Dict):
+            return all(k is not None and pure(k) and pure(v) for k, v in zip(e.keys, e.values))
+        if isinstance(e, ast.UnaryOp):
+            return pure(e.operand)
+        return False
+
+    for _round in range(4):
+        done = False
+        for block in _blocks(fnode):
+            for i, st in enumerate(block):
+                if not (isinstance(st, ast.For) and not st.orelse and isinstance(st.iter, (ast.Tuple, ast.List)) and 1 <= len(st.iter.elts) <= 6):
+                    continue
+                tg = st.target
+                names = [tg.id] if isinstance(tg, ast.Name) else ([e.id for e in tg.elts] if isinstance(tg, (ast.Tuple, ast.List)) and all(isinstance(e, ast.Name) for e in tg.elts) else None)
+                if not names or len(set(names)) != len(names):
+                    continue
+                elts = st.iter.elts
+                if not all(pure(e) for e in elts):
+                    continue
+                if isinstance(tg, (ast.Tuple, ast.List)) and not all(isinstance(e, (ast.Tuple, ast.List)) and len(e.elts) == len(names) for e in elts):
+                    continue
+                body_nodes = [x for b in st.body for x in ast.walk(b)]
+                if any(isinstance(x, (ast.Break, ast.Continue, ast.Return, ast.FunctionDef, ast.AsyncFunctionDef, ast.Lambda, ast.ClassDef, ast.Global, ast.Nonlocal,
+                                      ast.Yield, ast.YieldFrom)) for x in body_nodes):
+                    continue
+                mentioned = {x.id for e in elts for x in ast.walk(e) if isinstance(x, ast.Name)}
+                stored = {x.id for x in body_nodes if isinstance(x, ast.Name) and isinstance(x.ctx, (ast.Store, ast.Del))}
+                if stored & (set(names) | mentioned):
+                    continue
+                # the target names are not read after the loop
+                after = [x for b in block[i + 1:] for x in ast.walk(b) if isinstance(x, ast.Name) and x.id in names and isinstance(x.ctx, ast.Load)]
+                if after:
+                    continue
+                new_stmts = []
+                for e in elts:
+                    env = {names[0]: e} if isinstance(tg, ast.Name) else dict(zip(names, e.elts))
+                    for b in st.body:
+                        nb = _subst_stmt(_clone(b), env)
+                        new_stmts.append(nb)
+                block[i:i + 1] = new_stmts
+                total += 1
+                done = True
+                break
+            if done:
+                break
+        if not done:
+            break
+    return total
+
+
+def _subst_stmt(stmt, env):
+    class R(ast.NodeTransformer):
+        def visit_Name(self, node):
+            if isinstance(node.ctx, ast.Load) and node.id in env:
+                return ast.copy_location(_clone(env[node.id]), node)
+            return node
+    out = R().visit(stmt)
+    ast.fix_missing_locations(out)
+    return out
+
+
 def loops_to_comprehensions(fnode):
     """N10:  L = [] ; for T in IT: L.append(E)   ->   L = [E for T in IT]
     when the loop body is that one statement, L is not read in E / IT, and the loop variables are not used
@@ -943,6 +1019,7 @@ def normalize_module(tree, modname=None, foreign=None):
     for node in ast.walk(tree):
         if isinstance(node, (ast.FunctionDef, ast.AsyncFunctionDef)):
             expand_star_tuples(node)
+            unroll_literal_loops(node)
             loops_to_comprehensions(node)
             fold_constant_tests(node)
             conditional_statements(node)
@@ -953,8 +1030,9 @@ def normalize_module(tree, modname=None, foreign=None):
                 c_ = split_tuple_assignments(node)
                 b_ = propagate_aliases(node) + propagate_subscript_aliases(node)
                 d_ = unpack_literal_dicts(node)
+                e_ = unroll_literal_loops(node)
                 n_inl += a_ + b_
-                if not (a_ or b_ or c_ or d_):
+                if not (a_ or b_ or c_ or d_ or e_):
                     break
     if n_h:
         fold_constant_formats(tree)       # literal arguments that arrived by unfolding a helper
